@@ -35,6 +35,17 @@ TIME_SPEC = {
 }
 
 
+PM_WRAPS = False   # set by Tree(): does the tree's DateTimeFormatUtil.to_pm wrap modulo 24 (repaired) or not (as found)
+
+
+def drive(lines):
+    """common.driver for `dt.*` operations: the op name carries the `to_pm` variant the working tree follows (`+w`)."""
+    if PM_WRAPS:
+        lines = [(l.split('\t', 1)[0] + '+w' + ('\t' + l.split('\t', 1)[1] if '\t' in l else '')) if l.startswith('dt.') else l
+                 for l in lines]
+    return common.driver(lines)
+
+
 def dt_field(d):
     return '%d,%d,%d,%d,%d,%d' % (d.year, d.month, d.day, d.hour, d.minute, d.second)
 
@@ -110,6 +121,8 @@ class Tree:
         self.TimeTypeConstants = constants.TimeTypeConstants
         self.base_time, self.base_date, self.base_datetime, self.base_merged = base_time, base_date, base_datetime, base_merged
         self.models = {}
+        global PM_WRAPS
+        PM_WRAPS = utilities.DateTimeFormatUtil.to_pm('17:05') == '05:05'
 
     def model(self, culture='en-us'):
         if culture not in self.models:
